@@ -10,6 +10,11 @@ iterations instantiated with store_flowir_to_disk=True;  then per cycle:
     optionally more loop iterations on E' (stored), which becomes the "previous experiment".
 snapshot = node set, edge set, per node resolved configuration (configurationForNode(raw=False)),
 data references, environment; DoWhile state + placeholders; user variables; number of stages.
+Round 3: about half of the packages carry "explicitly empty" list options (shutdownOn / restartHookOn /
+executors.pre|post set to [] where the FlowIR default, a blueprint layer or the component's own base under
+an override gives a non-empty list; _c07_gen._add_explicit_empties).  The verdict is still the differential
+`configuration` clause; `clause_reload_emptied_options` counts the (node, option) pairs whose resolved value
+in the experiment that wrote the files is the explicitly chosen [] (ground truth by construction).
 """
 from __future__ import annotations
 
@@ -270,6 +275,43 @@ def classify_stage_replica_variable(case, node, a, b):
     return KEY_STAGEVAR
 
 
+# ----------------------------------------------------------------------------- explicitly empty options
+
+def _template_name(conf):
+    """Name of the package component a node was made from: without the replica suffix and the `<k>#` prefix."""
+    import re
+    name = str(conf.get("name", ""))
+    rep = (conf.get("variables") or {}).get("replica")
+    if rep is not None and name.endswith(str(rep)):
+        name = name[:-len(str(rep))]
+    return re.sub(r"^\d+#", "", name)
+
+
+def emptied_pairs(case, snap):
+    """(node, option) pairs for which the generator's plan says 'explicitly [] over a non-empty inherited value'
+    AND whose resolved value in `snap` is indeed empty (so the comparison after the reload is not vacuous)."""
+    out = []
+    plan = case.get("emptied") or []
+    if not plan:
+        return out
+    for n in snap["nodes"]:
+        conf = snap["per_node"][n]["configuration"]
+        if not isinstance(conf, dict):
+            continue
+        tmpl = _template_name(conf)
+        stage = conf.get("stage")
+        for e in plan:
+            if e["component"] not in ("*", tmpl):
+                continue
+            if e["stage"] is not None and e["stage"] != stage:
+                continue
+            a, b = e["option"].split(".")
+            val = (conf.get(a) or {}).get(b, "<absent>")
+            if val == []:
+                out.append((n, e["option"], e["kind"], plan.index(e)))
+    return out
+
+
 # ----------------------------------------------------------------------------- one case
 
 case_stage = ["create"]
@@ -326,6 +368,11 @@ def run_case(case, w, only_clause=None):
     prev = exp
     prev_snap = snapshot(prev)
     n_loop_nodes = sum(1 for n in prev_snap["nodes"] if "#" in n)
+    if case.get("emptied"):
+        # how much of the generator's plan is real in the experiment that wrote the files (informational)
+        seen = {i for _, _, _, i in emptied_pairs(case, prev_snap)}
+        w.count("info_emptied_plan_entries", len(case["emptied"]))
+        w.count("info_emptied_plan_entries_resolved_empty", len(seen))
     ok = True
     for ci, cyc in enumerate(case["cycles"]):
         before = read_files(inst)
@@ -349,6 +396,12 @@ def run_case(case, w, only_clause=None):
             w.count("clause_reload_nondefault_platform")
         if case["uservars"]:
             w.count("clause_reload_with_user_variables")
+        emptied = emptied_pairs(case, prev_snap)
+        if emptied:
+            w.count("clause_reload_with_emptied_options")
+            w.count("clause_reload_emptied_options", len(emptied))
+            for kind in sorted({k for _, _, k, _ in emptied}):
+                w.count("clause_reload_emptied_kind_" + kind)
         # (a) same components
         if prev_snap["nodes"] != new_snap["nodes"]:
             ok = False
@@ -367,8 +420,16 @@ def run_case(case, w, only_clause=None):
                     ok = False
                     d = diff(a, b)
                     key = classify_stage_replica_variable(case, n, a, b) if what == "configuration" else None
-                    viol(what, "%s of %s differs after reload (cycle %d): %s" % (what, n, ci, "; ".join(d)[:600]),
-                         {"cycle": ci, "node": n, "diff": d}, key)
+                    note = ""
+                    if what == "configuration":
+                        hit = sorted({o for (nn, o, _, _) in emptied if nn == n and
+                                      any(line.startswith("/" + o.replace(".", "/") + ":") for line in d)})
+                        if hit:
+                            w.count("viol_emptied_option_not_preserved")
+                            note = " [option(s) %s: the package sets an explicitly EMPTY list that overrides a " \
+                                   "non-empty inherited value; the reloaded experiment inherits again]" % ", ".join(hit)
+                    viol(what, "%s of %s differs after reload (cycle %d)%s: %s" % (what, n, ci, note, "; ".join(d)[:600]),
+                         {"cycle": ci, "node": n, "diff": d, "emptied_options": note or None}, key)
         # (c) same dataflow
         lost, gained, tolerated = edge_diff(prev_snap, new_snap, prev_snap)
         w.count("clause_edges")
@@ -539,7 +600,10 @@ def run_job(job, w):
         if ok:
             w.count("cases_round_tripped")
         w.distinct(G.class_key(case))
+        if case.get("emptied"):
+            w.count("cases_with_explicit_empties")
         w.sample({"idx": case["idx"], "class": G.class_key(case), "platform": case["platform"], "k0": case["k0"],
+                  "emptied": case.get("emptied"),
                   "cycles": case["cycles"], "uservars": case["uservars"], "flowir": case["flowir"],
                   "dowhile": case["dowhile"]})
 
@@ -556,7 +620,8 @@ def main():
                         "replication, DoWhile document) + a store/load history (k0 loop iterations, 1-3 reload cycles with "
                         "or without instance-file update, further iterations on the reloaded experiment); distinct = "
                         "structural classes (#platforms, default/non-default selected, loop, k0 band, cycle pattern, "
-                        "#user files, override/replicate/blueprint/platform-environment present)",
+                        "#user files, override/replicate/blueprint/platform-environment present, kinds of explicitly "
+                        "empty options)",
                    assumptions=[
                        "the reload passes the platform name that created the instance (as elaunch --restart does from "
                        "elaunch.yaml); reloading with another / no platform is outside the property",
@@ -590,6 +655,11 @@ def main():
     c.floor("clause_reload_with_user_variables", 20 if tier == "quick" else 400)
     c.floor("clause_store_idempotent", 80 if tier == "quick" else 2000)
     c.floor("clause_default_reload", 8 if tier == "quick" else 150)
+    # explicitly empty list options over a non-empty inherited value (round 3)
+    c.floor("clause_reload_with_emptied_options", 25 if tier == "quick" else 500)
+    c.floor("clause_reload_emptied_options", 200 if tier == "quick" else 5000)
+    c.floor("clause_reload_emptied_kind_default", 5 if tier == "quick" else 100)
+    c.floor("clause_reload_emptied_kind_blueprint", 10 if tier == "quick" else 200)
     sys.exit(c.finish())
 
 
